@@ -363,6 +363,42 @@ func (g *Gen) c12NamedInt(rel, name string) (string, int, error) {
 			}
 		}
 		if gd.Tok == token.CONST && len(gd.Specs) > 0 && n == 0 {
+			// every constant of the type written with its value: 0 … max, each value once
+			seen := map[int]bool{}
+			explicit := true
+			for _, sp := range gd.Specs {
+				vs := sp.(*ast.ValueSpec)
+				if vs.Type == nil || g.Src(vs.Type) != name {
+					continue
+				}
+				if len(vs.Names) != 1 || len(vs.Values) != 1 {
+					explicit = false
+					break
+				}
+				bl, ok := vs.Values[0].(*ast.BasicLit)
+				if !ok || bl.Kind != token.INT {
+					explicit = false
+					break
+				}
+				v, err := strconv.Atoi(bl.Value)
+				if err != nil || v < 0 || seen[v] {
+					explicit = false
+					break
+				}
+				seen[v] = true
+			}
+			if explicit && len(seen) > 0 {
+				dense := true
+				for i := 0; i < len(seen); i++ {
+					if !seen[i] {
+						dense = false
+					}
+				}
+				if dense {
+					n = len(seen)
+					continue
+				}
+			}
 			first := gd.Specs[0].(*ast.ValueSpec)
 			if first.Type != nil && g.Src(first.Type) == name && len(first.Values) == 1 && g.Src(first.Values[0]) == "iota" {
 				ok := true
